@@ -12,7 +12,7 @@ use cfgrammar::{RIdx, TIdx};
 use rayon::prelude::*;
 use serde_json::{Value, json};
 use std::time::Duration;
-use vcore::gram::{RefGrammar, Sym};
+use vcore::gram::{RefGrammar, Sym, Universe};
 use vcore::pool::{WOut, run_pool, worker_main};
 use vcore::real::{YK, build_grammar};
 use vcore::refs::{Analysis, Earley, analyse, bounded_languages, brute_analysis};
@@ -745,9 +745,53 @@ pub fn run(ctx: Ctx) -> i32 {
             v
         })
         .collect();
+    // quick tier: the finite-language (non-recursive, all rules reachable) three-rule grammars are
+    // small enough to go through the two cost queries as well (three levels of rule references are
+    // needed before an estimate of max_sentence_cost meets a finished production)
+    let extra: Vec<(RefGrammar, Vec<u8>, bool, u64)> = if ctx.quick() {
+        Universe::new(3, 2, 2, 2, 6)
+            .enumerate()
+            .par_iter()
+            .filter(|g| g.nrules() == 3)
+            .filter(|g| {
+                let an = analyse(g);
+                (0..g.nrules()).all(|r| !an.cyclic[r] && an.productive[r] && an.reachable_from_start[r])
+            })
+            .flat_map_iter(|g| {
+                let an = analyse(g);
+                let mut v = vec![];
+                for costs in vectors(&[1, 2], g.ntoks) {
+                    let cr = cost_reference(g, &an, &costs);
+                    let n = match validate_cost_reference(g, &an, &costs, &cr, 7) {
+                        Ok(n) => n,
+                        Err(e) => machinery(&format!("cost reference self-check failed on {}: {}", g.short(), e)),
+                    };
+                    let t = min_cost_fixpoint_terminates(g, &costs);
+                    v.push((g.clone(), costs, t, n));
+                }
+                v
+            })
+            .collect()
+    } else {
+        vec![]
+    };
+    ctx.set("finite_three_rule_grammar_cost_vectors", extra.len() as u64);
+    let nmain = triples.len();
     let mut stalls_seen = 0u64;
-    for (g, costs, terminates, n) in triples {
+    for (k, (g, costs, terminates, n)) in triples.into_iter().chain(extra).enumerate() {
         selfchecks += n;
+        if k >= nmain {
+            // (where the min-cost fixed point as implemented cannot terminate - defect model
+            // C17-b, exercised by the main pass - only the max-cost query is run)
+            for q in ["mincost", "maxcost"] {
+                if q == "mincost" && !terminates {
+                    continue;
+                }
+                cases.push(case_line(&g, &costs, q));
+                meta.push((g.clone(), costs.clone(), q));
+            }
+            continue;
+        }
         // Cases on which the cost fixed point *as implemented* cannot terminate (defect model
         // C17-b) are expected to hang: they go to their own pass with a short first-pass limit;
         // min_sentence / min_sentences would hang in the very same call, so only the two cost
